@@ -448,6 +448,21 @@ TrProbe ==
              O("C14", "probe.capacity", Rec[l].filled >= Rec[l].fresh) >>)
   /\ UNCHANGED <<kind, n, l2v, hs, gcN, roN, aux>>
 
+(* substitution objects created concurrently by several threads and alive at
+   the same time (C07; C04: "different substitutions are used alternately"):
+   Substitution::id is the apply-cache key of substitute(), two substitutions
+   used with one manager must not share it *)
+RECURSIVE SumLens(_, _)
+SumLens(ss, k) == IF k = 0 THEN 0 ELSE Len(ss[k]) + SumLens(ss, k - 1)
+TrSubstIds ==
+  /\ Ev("substids")
+  /\ LET ids == Rec[l].ids
+         all == UNION {SeqToSet(ids[t]) : t \in 1 .. Len(ids)}
+         cnt == SumLens(ids, Len(ids))
+     IN  Step(<< O("C07", "conc.substid.unique", Cardinality(all) = cnt),
+                 O("C04", "substid.unique", Cardinality(all) = cnt) >>)
+  /\ UNCHANGED <<kind, n, l2v, hs, gcN, roN, aux>>
+
 (* DDDMP export of live handles: a read-only traversal; the handles must be
    known, the call must not fail; the next snapshot audits the store *)
 TrExport ==
@@ -594,7 +609,7 @@ TrInit ==
 TrNext ==
   \/ TrReset \/ TrAddVars \/ TrOp \/ TrCofNone \/ TrClone \/ TrDrop
   \/ TrGc \/ TrReorder \/ TrObs \/ TrSnap \/ TrAdopt \/ TrConstructMismatch
-  \/ TrRows \/ TrBegin \/ TrPick \/ TrUni \/ TrCount \/ TrExpectOk \/ TrCGc \/ TrProbe \/ TrExport \/ TrEvalW
+  \/ TrRows \/ TrBegin \/ TrPick \/ TrUni \/ TrCount \/ TrExpectOk \/ TrCGc \/ TrProbe \/ TrExport \/ TrEvalW \/ TrSubstIds
 
 TrSpec == TrInit /\ [][TrNext]_tvars
 
